@@ -357,6 +357,15 @@ func init() {
 				manySegments(c, "many-segments")
 				return
 			}
+			if c.Case%16 == 11 {
+				kind := []string{"kv", "set", "zset", "list"}[c.Rng.Intn(4)]
+				modes := []int{0}
+				if kind == "kv" {
+					modes = []int{0, 1, 2}
+				}
+				largeHistory(c, "clean-close", largeOpts{Kind: kind, Modes: modes, Merge: c.Case%32 == 11})
+				return
+			}
 			switch c.Case % 4 {
 			case 0:
 				exactFill(c, "exact-fill")
@@ -381,7 +390,19 @@ func init() {
 	register(&Check{
 		ID: "C08", Level: "exploration",
 		NCases: func(t string) int { return tier(t, 400, 15000) },
-		Run:    func(c *CaseCtx) { runAnything(c, true, "anything", false) },
+		Run: func(c *CaseCtx) {
+			if c.Case%16 == 11 {
+				kind := []string{"kv", "set", "zset", "list"}[c.Rng.Intn(4)]
+				modes := []int{0}
+				if kind == "kv" {
+					modes = []int{0, 1, 2}
+				}
+				largeHistory(c, "anything", largeOpts{Kind: kind, Modes: modes, Merge: c.Case%32 == 11})
+				c.Stat("reopens", 2)
+				return
+			}
+			runAnything(c, true, "anything", false)
+		},
 		Rule: "case = unconstrained seeded history (multi-operation transactions that read/pop what they wrote, operations that are no-ops at commit, failing/rolled-back/oversized transactions, reads of missing buckets; all structures in KeyVal, KV in KeyOnly and sparse) with 2-4 Close/Open points; " +
 			"oracle: full observation of every bucket/structure just before Close == the one just after Open with the same options (self-comparison, no model); non-trivial = >=6 distinct operation kinds and a rotation; distinct by configuration+history hash",
 		Assumptions: []string{"the universe of buckets/keys read by the observation covers everything the history can write"},
